@@ -101,6 +101,7 @@ class SimSpawn:
         self.faults = faults or {}
         self.attempts = Counter()
         self.log = []
+        self.fs_hook = None     # callable(what, src, dst): runs right BEFORE the child renames / replaces a file (a yield point)
 
     def __call__(self, argv, cwd=None, capture_output=False, encoding=None, **kw):
         import molli.pipeline.runner as runner
@@ -123,7 +124,7 @@ class SimSpawn:
             if fault and fault["kind"] == "kill_before_start":
                 raise SimKill()
             try:
-                with _subprocess_seam(runner):
+                with _subprocess_seam(runner), _rename_seam(self.fs_hook):
                     runner.run_local()
                 rc = 0  # run_local always leaves through exit(); falling off the end means status 0
             except SystemExit as e:
@@ -222,6 +223,31 @@ def _subprocess_seam(runner):
     finally:
         for n, v in saved.items():
             setattr(subprocess, n, v)
+
+
+@contextlib.contextmanager
+def _rename_seam(hook):
+    """os.replace / os.rename (pathlib's rename / replace end there too) of the simulated child are yield points: `hook`
+    runs first - another runner may be scheduled between a file being written under a temporary name and its being moved
+    into place."""
+    if hook is None:
+        yield
+        return
+    real_replace, real_rename = os.replace, os.rename
+
+    def replace(src, dst, *a, **kw):
+        hook("replace", os.fspath(src), os.fspath(dst))
+        return real_replace(src, dst, *a, **kw)
+
+    def rename(src, dst, *a, **kw):
+        hook("rename", os.fspath(src), os.fspath(dst))
+        return real_rename(src, dst, *a, **kw)
+
+    os.replace, os.rename = replace, rename
+    try:
+        yield
+    finally:
+        os.replace, os.rename = real_replace, real_rename
 
 
 def _runner_exit(code=0):
